@@ -167,27 +167,49 @@ def execute(sc, out):
         base_raw = SS.raw_fields(base)
         base_vals = _all_values(base, ATTRS)
         base_plan = SS.snapshot_plan(an0.plan())
-        baselines = {("chunk", sc["world"].get("chunk")): (base_raw, base_vals)} if world == "numpy" else {}
+        def knob_key():
+            if world == "numpy":
+                return ("chunk", sess.spec.get("chunk"))
+            if world == "real-numba":
+                return ("threads", sess.spec.get("threads"), sess.spec.get("chunksize"))
+            return None
+
+        key0 = knob_key()
+        baselines = {key0: (base_raw, base_vals)}
         out.observe([base_raw[k] for k in SS.RAW_CMP])
 
+        def cross_knob_check(raw, key):
+            """Same analysis under another thread configuration / chunking: raw statistics within the rounding budget
+            (beyond it: violation), plan and window sums exactly."""
+            ulp = False
+            for j in range(nf):
+                t2, t4 = _numpy_budget(int(raw["L"][j]), xmax)
+                for nm, tol in (("XX", t2), ("YY", t2), ("XY", t2), ("M2", t4)):
+                    a, b = raw[nm][j], base_raw[nm][j]
+                    if a == b or (a != a and b != b):
+                        continue
+                    if not abs(a - b) <= tol:
+                        out.violate("depends_on_thread_config" if world == "real-numba" else "depends_on_chunking",
+                                    f"world={world} field={nm}", f"bin {j}: {key} gives {a!r}, {key0} gives {b!r} (budget {tol:.2e})")
+                    else:
+                        ulp = True
+            for nm in ("f", "L", "K", "navg", "D", "S2", "S12"):
+                if not SS.eq(raw[nm], base_raw[nm]):
+                    out.violate("depends_on_thread_config" if world == "real-numba" else "depends_on_chunking",
+                                f"world={world} field={nm}", "plan / window-sum field differs between configurations")
+            if ulp and world == "real-numba":
+                out.violate("ulp_level_dependence_on_thread_config", "world=real-numba",
+                            f"compiled kernels: same analysis under {key} and {key0} differs in the last bits (within the rounding budget)")
+                out.count("real_numba_ulp_difference")
+            out.count("np_chunk_changed" if world == "numpy" else "thread_config_baseline")
+
         def baseline_for_now():
-            if world != "numpy":
-                return base_raw, base_vals
-            key = ("chunk", sess.spec.get("chunk"))
+            key = knob_key()
             if key not in baselines:
                 _, r = fresh_compute()
                 raw = SS.raw_fields(r)
                 baselines[key] = (raw, _all_values(r, ATTRS))
-                # schedule independence across chunk sizes, within the rounding budget
-                for j in range(nf):
-                    t2, t4 = _numpy_budget(int(raw["L"][j]), xmax)
-                    for nm, tol in (("XX", t2), ("YY", t2), ("XY", t2), ("M2", t4)):
-                        if not abs(raw[nm][j] - base_raw[nm][j]) <= tol:
-                            out.violate("depends_on_chunking", f"world=numpy field={nm}", f"bin {j}: chunk {key[1]} gives {raw[nm][j]!r}, chunk {sc['world'].get('chunk')} gives {base_raw[nm][j]!r}")
-                for nm in ("f", "L", "K", "navg", "D", "S2", "S12"):
-                    if not SS.eq(raw[nm], base_raw[nm]):
-                        out.violate("depends_on_chunking", f"world=numpy field={nm}", "plan / window-sum field differs between chunk sizes")
-                out.count("np_chunk_changed")
+                cross_knob_check(raw, key)
             return baselines[key]
 
         # ---------------- the history on ONE analyzer ------------------------------------------------
